@@ -1244,6 +1244,46 @@ pub fn mono(genv: GlobalTypeEnv, file: core::File) -> (MonoFile, GlobalMonoEnv) 
         });
     }
 
+    // A non-generic type definition can name instances of generic types in its fields
+    // (`struct S { o: Opt[int64] }`): those field types are specialised like all others.
+    let plain_structs: Vec<StructDef> = m
+        .struct_base
+        .values()
+        .filter(|def| def.generics.is_empty())
+        .cloned()
+        .collect();
+    for def in plain_structs {
+        let fields = def
+            .fields
+            .iter()
+            .map(|(name, ty)| (name.clone(), m.collapse_type_apps(ty)))
+            .collect();
+        if let Some(slot) = m.monoenv.struct_def_mut(&def.name) {
+            slot.fields = fields;
+        }
+    }
+    let plain_enums: Vec<EnumDef> = m
+        .enum_base
+        .values()
+        .filter(|def| def.generics.is_empty())
+        .cloned()
+        .collect();
+    for def in plain_enums {
+        let variants = def
+            .variants
+            .iter()
+            .map(|(name, tys)| {
+                let tys = tys.iter().map(|ty| m.collapse_type_apps(ty)).collect();
+                (name.clone(), tys)
+            })
+            .collect();
+        m.monoenv.genv.insert_enum(EnumDef {
+            name: def.name.clone(),
+            generics: vec![],
+            variants,
+        });
+    }
+
     // Drop all generic enum defs to avoid Go backend panics
     m.monoenv.retain_enums(|_n, def| def.generics.is_empty());
     m.monoenv.retain_structs(|_n, def| def.generics.is_empty());
